@@ -47,3 +47,27 @@ def maxAbs {K} [Num K] (a b : K) : K :=
 def pyMax {K} [Num K] (a b : K) : K := if a < b then b else a
 
 end Ndt
+
+namespace Ndt
+/-- complex numbers over `K` (Gaussian rationals for `K = Rat`): the carrier of `x + 1j*h`, of
+complex step ratios and of complex-valued sequences in the exact runs. -/
+structure Cx (K : Type) where
+  re : K
+  im : K
+deriving Repr, BEq, DecidableEq
+
+namespace Cx
+variable {K : Type} [Add K] [Sub K] [Mul K] [Div K] [Neg K] [OfNat K 0] [OfNat K 1]
+instance : Add (Cx K) := ⟨fun a b => ⟨a.re + b.re, a.im + b.im⟩⟩
+instance : Sub (Cx K) := ⟨fun a b => ⟨a.re - b.re, a.im - b.im⟩⟩
+instance : Neg (Cx K) := ⟨fun a => ⟨-a.re, -a.im⟩⟩
+instance : Mul (Cx K) := ⟨fun a b => ⟨a.re * b.re - a.im * b.im, a.re * b.im + a.im * b.re⟩⟩
+instance : Div (Cx K) := ⟨fun a b =>
+  let d := b.re * b.re + b.im * b.im
+  ⟨(a.re * b.re + a.im * b.im) / d, (a.im * b.re - a.re * b.im) / d⟩⟩
+instance : OfNat (Cx K) 0 := ⟨⟨0, 0⟩⟩
+instance : OfNat (Cx K) 1 := ⟨⟨1, 0⟩⟩
+def ofReal (x : K) : Cx K := ⟨x, 0⟩
+def I : Cx K := ⟨0, 1⟩
+end Cx
+end Ndt
